@@ -8,7 +8,14 @@ mod verif_c06 {
     // @h name=c06_entry_counters tier=quick timeout=900
     #[kani::proof]
     #[kani::unwind(7)]
-    fn c06_entry_counters() {
+    fn c06_entry_counters() { counters_case(5); }
+
+    // @h name=c06_entry_count7 tier=thorough timeout=3600 mem=24
+    #[kani::proof]
+    #[kani::unwind(9)]
+    fn c06_entry_count7() { counters_case(7); }
+
+    fn counters_case(steps: usize) {
         let (a0, b0): (u64, u64) = (kani::any(), kani::any());
         let e = CacheEntry::new(Dy((a0, b0)), sid("a"), || true);
         let uh: &UntypedHandle = e.inner();
@@ -23,7 +30,7 @@ mod verif_c06 {
         let (mut writes, mut w1_seen, mut w2_seen, mut g_seen) = (0usize, 0usize, 0usize, 0usize);
         let (mut cur_a, mut cur_b) = (a0, b0);
         let mut i = 0;
-        while i < 5 {
+        while i < steps {
             let op: u8 = kani::any();
             kani::assume(op < 6);
             match op {
@@ -54,7 +61,7 @@ mod verif_c06 {
             drop(g);
             i += 1;
         }
-        kani::cover!(writes == 5);
+        kani::cover!(writes == steps);
         kani::cover!(writes == 2 && w1_seen == 1 && g_seen == 2);
         std::mem::forget(e);
     }
